@@ -1,4 +1,4 @@
-CONSTANTS Keys = {1, 2, 3}  Powers = {0, 1, 2}  MaxTxs = 3  MaxBlocks = 3  PostAspen = TRUE
+CONSTANTS Keys = {1, 2, 3}  Powers = {0, 1, 2}  MaxTxs = 3  MaxBlocks = 3  PostAspen = TRUE  AllowUpgrade = FALSE
 INIT Init
 NEXT Next
 INVARIANTS MirrorOrKnown BatchApplicableOrKnown NeverEmptyOrKnown
